@@ -729,7 +729,11 @@ class R:
             n, d = math.isqrt(c.numerator), math.isqrt(c.denominator)
             if n * n == c.numerator and d * d == c.denominator:
                 return R(Fraction(n, d))
-            return R(Fraction(math.isqrt(c.numerator * SQRT_SCALE * SQRT_SCALE // c.denominator), SQRT_SCALE))
+            # relative (not absolute) precision 1/SQRT_SCALE: normalise to m * 4^j with m in [1/4, 4)
+            j = (c.numerator.bit_length() - c.denominator.bit_length()) // 2
+            m_ = c / (Fraction(4) ** j)
+            r_ = Fraction(math.isqrt(m_.numerator * SQRT_SCALE * SQRT_SCALE // m_.denominator), SQRT_SCALE)
+            return R(r_ * (Fraction(2) ** j))
         # factor even powers of positive generators common to all monomials, and the content
         out = R(1)
         p = s.p
